@@ -57,6 +57,7 @@ NEEDS.update({
  "C12c": "a subtraction whose right operand contains another subtraction: a - (b - c)",
  "C13c": "a partial run finalised more than once (problems list aliased into per-run state)",
  "C14c": "an exact-pattern subscriber iterating concurrently with the first publish to a not-yet-existing channel",
+ "C15c": "a subscriber scan pruning a freshly created, still empty channel entry while publish() sits between the table lookup and q.append (the job or its status report is lost)",
  "C16c": "a plain component without a docstring wrapped in a source / sink / probe node",
  "C17c": "two generated processors with one class name and different parameters in one pipeline, the later needing an unsupplied key",
  "C18c": "jobs executed by the queue worker (one stdlib logger registered per job id)",
@@ -68,7 +69,7 @@ CAUGHT = {
 CAUGHT.update({"C07b": "C07 quick and C01 quick (after None-valued context entries were added to the model)"})
 CAUGHT.update({"C17c": "C17 quick and C02 quick (after the strengthening noted)"})
 STRENGTHENED = {"C03", "C04", "C05", "C07", "C08", "C15", "C17", "C05b", "C07b", "C10b", "C11b",
-                "C08c", "C10c", "C11c", "C16c", "C17c"}
+                "C08c", "C10c", "C11c", "C15c", "C16c", "C17c"}
 for pid in sorted(os.listdir(os.path.join(HERE, "seeded"))):
     d = os.path.join(HERE, "seeded", pid)
     vf = os.path.join(d, "verify.json")
